@@ -662,11 +662,12 @@ def _frame_violations(n, past, d2, ncol, weights, layout="plain", before=None):
     return bad
 
 
-def _mape_violations(e, p, w):
-    """Statement for ts_mape on (expected, predicted, weights); `p` may hold None (NaN forecast)."""
+def _mape_violations(e, p, w, int_series=False):
+    """Statement for ts_mape on (expected, predicted, weights); `p` may hold None (NaN forecast).  `int_series`: the
+    series is stored with an integer dtype (counts); the weights may be fractional (decay / normalised weights)."""
     import numpy
     from mlinsights.timeseries.metrics import ts_mape
-    ea = numpy.array(e, dtype=float)
+    ea = numpy.array(e, dtype=numpy.int64 if int_series else float)
     pa = numpy.array([numpy.nan if v is None else v for v in p], dtype=float)
     wa = None if w is None else numpy.array(w, dtype=float)
     # rows on which forecast and naive forecast can both be compared: t >= 1 with p[t], p[t-1] not NaN
@@ -815,12 +816,20 @@ def search(ctx, hints):
             lead = rng.randint(0, min(n, 3))
             p = [None if (i < lead or rng.random() < 0.08) else rng.randint(-9, 9) for i in range(n)]
         w = [rng.randint(0, 4) for _ in range(n)] if rng.random() < 0.4 else None
-        cases.append((e, p, w))
-    for e, p, w in cases:
+        if w is not None and rng.random() < 0.4:
+            w = [rng.choice([0.0, 0.125, 0.25, 0.5, 0.75, 1.0, 2.5]) for _ in range(n)]     # fractional (exact in binary)
+        cases.append((e, p, w, rng.random() < 0.35))
+    for case in cases:
+        e, p, w = case[:3]
+        ints = len(case) > 3 and case[3]
         evals += 1
-        nontriv.add((tuple(e), tuple(p), None if w is None else tuple(w)))
-        for key, what, obs, req in _mape_violations(e, p, w):
-            vs.append(Violation(key, what, {"kind": "mape", "expected": e, "predicted": p, "weights": w}, obs, req))
+        nontriv.add((tuple(e), tuple(p), None if w is None else tuple(w), ints))
+        for key, what, obs, req in _mape_violations(e, p, w, ints):
+            inp = {"kind": "mape", "expected": e, "predicted": p, "weights": w}
+            if ints:
+                inp["int_series"] = True
+                what += " (series of integer dtype)"
+            vs.append(Violation(key, what, inp, obs, req))
     best = {}
 
     def size(v):
@@ -840,7 +849,7 @@ def replay(ctx, item):
     if inp.get("kind") == "mape-table":
         return [Violation(k, w, inp, o, r) for k, w, o, r in _mape_table_violations(inp["n"], inp["past"], inp["delay2"])]
     if inp.get("kind") == "mape":
-        bad = _mape_violations(inp["expected"], inp["predicted"], inp["weights"])
+        bad = _mape_violations(inp["expected"], inp["predicted"], inp["weights"], bool(inp.get("int_series")))
         out = [Violation(k, w, inp, o, r) for k, w, o, r in bad]
     else:
         bad = _frame_violations(inp["n"], inp["past"], inp["delay2"], inp["ncol"], inp["weights"],
